@@ -419,6 +419,9 @@ class Respondent(httping.Parsent):
 
             line = next(lineParser)
             if line is None:
+                if self.closed:  # closed with only part of the line received
+                    raise httping.PrematureClosure("Connection closed unexpectedly"
+                                               " while parsing response start line")
                 (yield None)
                 continue
             lineParser.close()  # close generator
@@ -438,6 +441,9 @@ class Respondent(httping.Parsent):
                 if headers is not None:
                     leaderParser.close()
                     break
+                if self.closed:  # closed with only part of the header received
+                    raise httping.PrematureClosure("Connection closed unexpectedly"
+                            " while parsing response header")
                 (yield None)
             # new line parser for the status line that follows the 100 continue
             lineParser = httping.parseLine(raw=self.msg, eols=(CRLF, LF), kind="status line")
@@ -463,6 +469,9 @@ class Respondent(httping.Parsent):
             if headers is not None:
                 leaderParser.close()
                 break
+            if self.closed:  # closed with only part of the header received
+                raise httping.PrematureClosure("Connection closed unexpectedly"
+                                               " while parsing response header")
             (yield None)
         self.headers.update(headers)
 
@@ -553,6 +562,9 @@ class Respondent(httping.Parsent):
                     if result is not None:
                         chunkParser.close()
                         break
+                    if self.closed:  # closed with only part of the chunk received
+                        raise httping.PrematureClosure("Connection closed "
+                                "unexpectedly while parsing response body chunk")
                     (yield None)
 
                 size, parms, trails, chunk = result
@@ -583,7 +595,7 @@ class Respondent(httping.Parsent):
 
         elif self.length != None:  # known content length
             while len(self.msg) < self.length:
-                if self.closed and not self.msg:  # connection closed prematurely
+                if self.closed:  # connection closed prematurely
                     raise httping.PrematureClosure("Connection closed unexpectedly"
                                                    " while parsing response body")
                 (yield None)
